@@ -40,7 +40,7 @@ def run(tier):
     else:
         pick = allsc
     scen = []
-    variants = ["rand", "special", "identical", "chopped2", "chopped3", "chopped4"]
+    variants = ["rand", "special", "identical", "chopped2", "chopped3", "chopped4", "twin2", "twin3"]
     for i, s in enumerate(pick):
         c = s["corrupt"]
         v = "rand"
